@@ -114,7 +114,8 @@ pub fn run_all(ctx: &mut Ctx, stream: &str) {
 			MelDup, Vec<MelDup>, Option<MelDup>, ConstDisc, Vec<ConstDisc>, (ConstDisc, u8), [ConstDisc; 3], MidSkip, Box<MidSkip>, Vec<MidSkip>,
 			SkipOrders, Vec<SkipOrders>, Option<SkipOrders>,
 			OneAndSkipped, Vec<OneAndSkipped>, [OneAndSkipped; 3], VecDeque<OneAndSkipped>, Box<OneAndSkipped>, OneAligned, Vec<OneAligned>, [OneAligned; 2],
-			MixedDisc, Vec<MixedDisc>, (MixedDisc,), Box<MixedDisc>, [MixedDisc; 4], BigGen<u8>, BigGen<u64>, Vec<BigGen<u8>>, Option<BigGen<u64>>);
+			MixedDisc, Vec<MixedDisc>, (MixedDisc,), Box<MixedDisc>, [MixedDisc; 4], BigGen<u8>, BigGen<u64>, Vec<BigGen<u8>>, Option<BigGen<u64>>,
+			TrailingComma, Vec<TrailingComma>, TrailingCommaE, Option<TrailingCommaE>, TailEmpty, TailEmptyE, IdxEnum);
 		return;
 	}
 	small!(ctx, stream, f; (), bool, OptionBool, u8, i8, Option<bool>, Result<bool, bool>, Compact<u8>, Compact<u16>,
@@ -159,6 +160,7 @@ pub fn run_all(ctx: &mut Ctx, stream: &str) {
 		Arc<Option<u32>>, Arc<Compact<u64>>, Arc<MelEnum>, [Arc<Option<u8>>; 2], (u8, Box<Arc<Compact<u16>>>), Range<Arc<Option<u8>>>, Rc<Option<u16>>, Box<Result<u8, u64>>,
 		[Compact<u128>; 2], Box<Compact<u128>>, [Compact<u64>; 2], Rc<Compact<u32>>, [Compact<u16>; 3], Arc<Compact<u8>>, Box<[Compact<u128>; 1]>,
 		TailEmpty, Box<TailEmpty>, TailEmptyE, Vec<TailEmptyE>, (u8, TailEmpty),
+		TrailingComma, Vec<TrailingComma>, TrailingCommaE, Option<TrailingCommaE>,
 		// user-defined wrappers relying on the provided `decode_wrapped` (the model's `wrap`)
 		UserWrap<u32>, UserWrap<Vec<u8>>, Vec<UserWrap<u16>>, UserWrap<UserWrap<Box<u8>>>, Box<UserWrap<()>>, UNode, Option<SharedNode>, [UserWrap<u8>; 3],
 		(UserWrap<String>, u8), Vec<UNode>,
